@@ -230,7 +230,17 @@ func vary(t *rapid.T, groups []opGroup, target val.V) ([]opGroup, string) {
 	}
 	gi := gen.Int(t, "group", 0, len(groups)-1)
 	g := &groups[gi]
-	switch gen.Int(t, "variation", 0, 10) {
+	switch gen.Int(t, "variation", 0, 11) {
+	case 11: // a test/remove pair addressed to "-", the element after the last one
+		if len(g.pairs) >= 2 {
+			k := 2 * gen.Int(t, "pair", 0, len(g.pairs)/2-1)
+			prefix, tok := lastToken(g.pairs[k]["path"].(string))
+			if isIndexToken(tok) {
+				g.pairs[k]["path"] = prefix + "/-"
+				g.pairs[k+1]["path"] = prefix + "/-"
+				return groups, "pair-at-dash"
+			}
+		}
 	case 10: // a context-free hunk re-addressed to the parent of the hunk before it
 		if gi > 0 && len(g.ctx) == 0 {
 			prev := groups[gi-1].all()
